@@ -29,11 +29,34 @@ GENOME = "ACGTTGCATGACCGTA"
 
 def world_description(tier):
     w = WORLD[tier]
-    return f"exon layouts N={w['N']} k<={w['k']} x strands x all CDS placements x 2 parent kinds"
+    return (
+        f"exon layouts N={w['N']} k<={w['k']} x strands x all CDS placements x 3 parent kinds; scale family: "
+        f"{sum(1 for _ in scale_cases(tier))} transcripts with k in {SCALE_KS[tier]} exons (CDS placements on a ladder of exon "
+        f"boundaries / ends): every point conversion, interval conversions with ends at exon/CDS boundaries (+-1 for k<=6)"
+    )
+
+
+SCALE_KS = {"quick": (5, 9, 20), "thorough": (4, 5, 6, 7, 8, 9, 11, 16, 20, 33)}
+
+
+def scale_cases(tier):
+    """transcripts of the scale family (vlib/worlds.py): many exons; CDS placements from a ladder of transcript coordinates
+    around the first, a middle and the last exon boundary and the transcript ends"""
+    for k, exons in worlds.scale_layouts(tier, offset=2, ks=SCALE_KS[tier], npat=2 if tier == "quick" else 3):
+        bp = worlds.boundary_points(exons, around=0)
+        ln = bp[-1]
+        pts = sorted({0, 1, bp[1], bp[len(bp) // 2] - 1, bp[len(bp) // 2], bp[-2], bp[-2] + 1, ln - 1, ln} & set(range(ln + 1)))
+        if tier == "quick":
+            pts = sorted({0, bp[1], bp[len(bp) // 2] + 1, bp[-2], ln})
+        for strand in "+-":
+            yield exons, strand, None
+            for i, c0 in enumerate(pts):
+                for c1 in pts[i + 1 :]:
+                    yield exons, strand, (c0, c1)
 
 
 def shards(tier, seed):
-    return [{"tier": tier, "i": i} for i in range(NSH)]
+    return [{"tier": tier, "i": i} for i in range(NSH)] + [{"tier": tier, "part": "scale", "i": i} for i in range(NSH)]
 
 
 def expect_pos(res, name, case, o, exp, sig):
@@ -88,8 +111,12 @@ def check_overlapping_cds(res, N, exons, strand, cds_blocks):
             res.deviation(name, c, got, E, sig=f"ovlcds-{name}")
 
 
-def check_tx(res, N, exons, strand, cds, pk, f0=0, after_seq=False):
-    genome = GENOME[:N]
+def _genome(N):
+    return GENOME[:N] if N <= len(GENOME) else (GENOME * (N // len(GENOME) + 1))[:N]
+
+
+def check_tx(res, N, exons, strand, cds, pk, f0=0, after_seq=False, scale=False):
+    genome = _genome(N)
     if pk == "chrom":
         parent = lib.chrom_parent(genome)
     elif pk == "chunk":
@@ -99,6 +126,8 @@ def check_tx(res, N, exons, strand, cds, pk, f0=0, after_seq=False):
     else:
         parent = None
     case0 = dict(N=N, exons=[list(b) for b in exons], strand=strand, cds=list(cds) if cds else None, pk=pk, f0=f0)
+    if scale:
+        case0["scale"] = True
     if after_seq:
         case0["after_seq"] = True
     Ptx = F.tx_positions(exons, strand)
@@ -167,8 +196,14 @@ def check_tx(res, N, exons, strand, cds, pk, f0=0, after_seq=False):
                 if o[0] != "ok" or o[1] != q:
                     res.deviation("roundtrip", dict(op="cds->tx->seq->cds", **c), o[1], q, sig="path")
     # ---- interval conversions ------------------------------------------------------------------------------------
-    for a in range(0, ln):
-        for b in range(a + 1, ln + 1):
+    # (scale family: interval ends at exon / CDS boundaries of the transcript, and one base to either side of them)
+    tpts = range(0, ln + 1)
+    if scale:
+        tpts = sorted(set(worlds.boundary_points(sorted(exons), around=1 if len(exons) <= 6 else 0)[:: 1 if len(exons) <= 6 else 3]) | {ln} | ({c + d for c in cds for d in (-1, 0, 1) if 0 <= c + d <= ln} if cds else set()))
+    for a in tpts:
+        for b in tpts:
+            if b <= a:
+                continue
             for rho in "+-":
                 E = Ptx[a:b] if rho == "+" else list(reversed(Ptx[a:b]))
                 o = lib.outcome(tx.transcript_interval_to_sequence, a, b, lib.STRAND[rho])
@@ -178,8 +213,11 @@ def check_tx(res, N, exons, strand, cds, pk, f0=0, after_seq=False):
                     res.deviation("transcript_interval_to_sequence", c, loc_positions(o[1]) if o[0] == "ok" else o[1], E, sig="ti2s")
     if cds:
         lc = len(Pcds)
-        for a in range(0, lc):
-            for b in range(a + 1, lc + 1):
+        cpts = range(0, lc + 1) if not scale else sorted({t - cds[0] for t in tpts if cds[0] <= t <= cds[1]} | {0, lc})
+        for a in cpts:
+            for b in cpts:
+                if b <= a:
+                    continue
                 for rho in "+-":
                     E = Pcds[a:b] if rho == "+" else list(reversed(Pcds[a:b]))
                     o = lib.outcome(tx.cds_interval_to_sequence, a, b, lib.STRAND[rho])
@@ -187,8 +225,14 @@ def check_tx(res, N, exons, strand, cds, pk, f0=0, after_seq=False):
                     c = dict(op="cds_interval_to_sequence", a=a, b=b, rho=rho, **case0)
                     if o[0] != "ok" or loc_positions(o[1]) != E or lib.loc_strand(o[1]) != M.strand_rel(strand, rho):
                         res.deviation("cds_interval_to_sequence", c, loc_positions(o[1]) if o[0] == "ok" else o[1], E, sig="ci2s")
-    for cs in range(0, N):
-        for ce in range(cs + 1, N + 1):
+    gpts = range(0, N + 1)
+    if scale:
+        ar = (-1, 0, 1) if len(exons) <= 6 else (0,)
+        gpts = sorted({c + d for s_, e_ in exons[:: 1 if len(exons) <= 6 else 3] for c in (s_, e_) for d in ar if 0 <= c + d <= N} | ({c for p_ in (min(Pcds), max(Pcds) + 1) for c in (p_ - 1, p_, p_ + 1) if 0 <= c <= N} if cds else set()))
+    for cs in gpts:
+        for ce in gpts:
+            if ce <= cs:
+                continue
             for rho in "+-":
                 PQ = list(range(cs, ce)) if rho == "+" else list(range(ce - 1, cs - 1, -1))
                 for name, Pref in (("sequence_interval_to_transcript", Ptx), ("sequence_interval_to_cds", Pcds)):
@@ -281,6 +325,20 @@ def check_tx(res, N, exons, strand, cds, pk, f0=0, after_seq=False):
 def run_shard(shard):
     res = ShardResult()
     w = WORLD[shard["tier"]]
+    if shard.get("part") == "scale":
+        for idx, (exons, strand, cds) in enumerate(scale_cases(shard["tier"])):
+            if idx % NSH != shard["i"]:
+                continue
+            N = exons[-1][1] + 2
+            for pk in ("chrom", "chunk", "none"):
+                if pk != "chrom" and cds is not None and cds[0] != 0:
+                    continue
+                check_tx(res, N, exons, strand, cds, pk, scale=True)
+            if cds and cds[0] == 0:
+                for f0 in (1, 2):
+                    check_tx(res, N, exons, strand, cds, "chrom", f0, scale=True)
+        res.sample({"scale": "many-exon transcripts", "ks": list(SCALE_KS[shard["tier"]])})
+        return res
     N = w["N"]
     idx = 0
     for exons in worlds.layouts(N, w["k"], "disjoint"):
@@ -320,7 +378,7 @@ def replay(case):
     if case.get("kind") == "ovlcds":
         check_overlapping_cds(res, case["N"], tuple(tuple(b) for b in case["exons"]), case["strand"], tuple(tuple(b) for b in case["cds_blocks"]))
         return res.deviations
-    check_tx(res, case["N"], tuple(tuple(b) for b in case["exons"]), case["strand"], tuple(case["cds"]) if case["cds"] else None, case["pk"], case.get("f0", 0), case.get("after_seq", False))
+    check_tx(res, case["N"], tuple(tuple(b) for b in case["exons"]), case["strand"], tuple(case["cds"]) if case["cds"] else None, case["pk"], case.get("f0", 0), case.get("after_seq", False), scale=case.get("scale", False))
     devs = [d for d in res.deviations if d["case"].get("op") == case.get("op")]
     return devs or res.deviations
 
